@@ -372,19 +372,19 @@ func manySegments(c *CaseCtx, class string) {
 func init() {
 	register(&Check{
 		ID: "C09", Level: "fault_enumeration",
-		NCases: func(t string) int { return tier(t, 64, 1000) },
+		NCases: func(t string) int { return tier(t, 64, 700) },
 		Run: func(c *CaseCtx) {
-			if c.Case%16 == 7 {
+			if slot(c, 16) == 7 {
 				manySegments(c, "many-segments")
 				return
 			}
-			if c.Case%16 == 11 {
+			if slot(c, 16) == 11 {
 				kind := []string{"kv", "set", "zset", "list"}[c.Rng.Intn(4)]
 				modes := []int{0}
 				if kind == "kv" {
 					modes = []int{0, 1, 2}
 				}
-				largeHistory(c, "clean-close", largeOpts{Kind: kind, Modes: modes, Merge: c.Case%32 == 11})
+				largeHistory(c, "clean-close", largeOpts{Kind: kind, Modes: modes, Merge: (c.Case/16)%2 == 0})
 				return
 			}
 			switch c.Case % 4 {
@@ -410,15 +410,15 @@ func init() {
 	})
 	register(&Check{
 		ID: "C08", Level: "exploration",
-		NCases: func(t string) int { return tier(t, 400, 6000) },
+		NCases: func(t string) int { return tier(t, 400, 5000) },
 		Run: func(c *CaseCtx) {
-			if c.Case%16 == 11 {
+			if slot(c, 16) == 11 {
 				kind := []string{"kv", "set", "zset", "list"}[c.Rng.Intn(4)]
 				modes := []int{0}
 				if kind == "kv" {
 					modes = []int{0, 1, 2}
 				}
-				largeHistory(c, "anything", largeOpts{Kind: kind, Modes: modes, Merge: c.Case%32 == 11})
+				largeHistory(c, "anything", largeOpts{Kind: kind, Modes: modes, Merge: (c.Case/16)%2 == 0})
 				c.Stat("reopens", 2)
 				return
 			}
